@@ -76,6 +76,10 @@ impl<'a> PerTypeLookup<'a> {
 		}
 		let mut per_direct_union_variant = [NoneSomeOrConflict::None; N_VARIANTS];
 		let per_name = std::cell::RefCell::new(HashMap::new());
+		// The name a variant goes by (its fully qualified name, or the name of its type) takes
+		// precedence over the additional names other variants may also be found under (short
+		// name of a namespaced type, "Decimal" for a decimal over fixed)
+		let proper_names = std::cell::RefCell::new(Vec::new());
 		for (discriminant, &schema_node) in variants.iter().enumerate() {
 			let discriminant: i64 = discriminant
 				.try_into()
@@ -131,11 +135,21 @@ impl<'a> PerTypeLookup<'a> {
 					Cow::Owned(name.fully_qualified_name().to_owned()),
 					(discriminant, schema_node),
 				);
+				proper_names.borrow_mut().push((
+					Cow::Owned(name.fully_qualified_name().to_owned()),
+					(discriminant, schema_node),
+				));
 			};
-			let register_type_name = |type_name: &'static str| {
+			let register_additional_type_name = |type_name: &'static str| {
 				per_name
 					.borrow_mut()
 					.insert(Cow::Borrowed(type_name), (discriminant, schema_node));
+			};
+			let register_type_name = |type_name: &'static str| {
+				register_additional_type_name(type_name);
+				proper_names
+					.borrow_mut()
+					.push((Cow::Borrowed(type_name), (discriminant, schema_node)));
 			};
 			// Note that the following list is very coupled with the serializer:
 			// every `UnionVariantLookupKey` corresponds to one (or more) function
@@ -222,12 +236,12 @@ impl<'a> PerTypeLookup<'a> {
 					register(UnionVariantLookupKey::SeqOrTupleOrTupleStruct, 2);
 				}
 				SchemaNode::Decimal(Decimal { repr, .. }) => {
-					register_type_name("Decimal");
 					match repr {
 						DecimalRepr::Fixed(fixed) => {
+							register_additional_type_name("Decimal");
 							register_name(&fixed.name);
 						}
-						DecimalRepr::Bytes => {}
+						DecimalRepr::Bytes => register_type_name("Decimal"),
 					}
 					register(UnionVariantLookupKey::Integer, 5);
 					register(UnionVariantLookupKey::Integer4, 5);
@@ -290,6 +304,8 @@ impl<'a> PerTypeLookup<'a> {
 				}
 			}
 		}
+		let mut per_name = per_name.into_inner();
+		per_name.extend(proper_names.into_inner());
 		let per_direct_union_variant = per_direct_union_variant.map(|v| match v {
 			NoneSomeOrConflict::None => None,
 			NoneSomeOrConflict::Some {
@@ -299,7 +315,7 @@ impl<'a> PerTypeLookup<'a> {
 			NoneSomeOrConflict::Conflict { .. } => None,
 		});
 		PerTypeLookup {
-			per_name: per_name.into_inner(),
+			per_name,
 			per_direct_union_variant,
 		}
 	}
